@@ -228,6 +228,91 @@ func (s *c02leafScan) plainWrites(body *ast.BlockStmt) [][2]string {
 	return out
 }
 
+// c02leafOrder: the accesses to shared state (operations on atomic / once fields, plain field writes) a method performs
+// on a straight-line reading, in EXECUTION order: statements in source order, the arguments of a call before the call,
+// a function literal passed to `<sync.Once>.Do` entered in place, a call of a method of the receiver (its own or of an
+// embedded struct of the package, e.g. `MarkStarted()`, `IsStarted()`, an extracted helper) replaced by the accesses of
+// that method (depth <= 3). Round 6: the ORDER of the stores of a starting leaf and of the loads of its `Left` is what
+// makes `Left` see a consistent pair (started flag, finish time) without going through the once.
+func c02leafOrder(p *packages.Package, decls map[types.Object]*ast.FuncDecl, fd *ast.FuncDecl, depth int) []string {
+	var out []string
+	if fd == nil || fd.Body == nil || depth > 3 {
+		return out
+	}
+	sc := &c02leafScan{p: p}
+	if fd.Recv != nil && len(fd.Recv.List) == 1 && len(fd.Recv.List[0].Names) == 1 {
+		sc.recv = p.TypesInfo.Defs[fd.Recv.List[0].Names[0]]
+	}
+	var visit func(n ast.Node)
+	visit = func(n ast.Node) {
+		if n == nil {
+			return
+		}
+		ast.Inspect(n, func(x ast.Node) bool {
+			switch v := x.(type) {
+			case *ast.FuncLit:
+				return false // runs when called, not here (the literal of a once is entered below)
+			case *ast.CallExpr:
+				se, ok := v.Fun.(*ast.SelectorExpr)
+				if !ok {
+					return true
+				}
+				if f, ty, ok := sc.recvField(se.X); ok && c02leafSyncType(ty) {
+					isOnce := strings.TrimPrefix(types.TypeString(ty, nil), "*") == "sync.Once"
+					for _, a := range v.Args {
+						if fl, isLit := a.(*ast.FuncLit); isLit && isOnce && se.Sel.Name == "Do" {
+							for _, st := range fl.Body.List {
+								visit(st)
+							}
+						} else {
+							visit(a)
+						}
+					}
+					if !isOnce {
+						out = append(out, f+"."+se.Sel.Name)
+					}
+					return false
+				}
+				if sc.isRecv(se.X) {
+					if sel := p.TypesInfo.Selections[se]; sel != nil && sel.Kind() == types.MethodVal {
+						for _, a := range v.Args {
+							visit(a)
+						}
+						if callee := decls[sel.Obj()]; callee != nil {
+							out = append(out, c02leafOrder(p, decls, callee, depth+1)...)
+						} else {
+							out = append(out, se.Sel.Name+"()")
+						}
+						return false
+					}
+				}
+			case *ast.AssignStmt:
+				for _, r := range v.Rhs {
+					visit(r)
+				}
+				for _, l := range v.Lhs {
+					if f, ty, ok := sc.recvField(l); ok && !c02leafSyncType(ty) {
+						out = append(out, f+".write")
+					} else {
+						visit(l)
+					}
+				}
+				return false
+			case *ast.IncDecStmt:
+				if f, ty, ok := sc.recvField(v.X); ok && !c02leafSyncType(ty) {
+					out = append(out, f+".write")
+					return false
+				}
+			}
+			return true
+		})
+	}
+	for _, st := range fd.Body.List {
+		visit(st)
+	}
+	return out
+}
+
 func c02leafExtra(t *tr) string {
 	p := t.pkg
 	type meth struct {
@@ -235,11 +320,15 @@ func c02leafExtra(t *tr) string {
 		fd        *ast.FuncDecl
 	}
 	byType := map[string][]meth{}
+	c02leafDecls := map[types.Object]*ast.FuncDecl{}
 	for _, f := range p.Syntax {
 		for _, d := range f.Decls {
 			fd, ok := d.(*ast.FuncDecl)
 			if !ok || fd.Recv == nil || fd.Body == nil || len(fd.Recv.List) != 1 {
 				continue
+			}
+			if o := p.TypesInfo.Defs[fd.Name]; o != nil {
+				c02leafDecls[o] = fd
 			}
 			n, ok := c02cbDeref(p.TypesInfo.TypeOf(fd.Recv.List[0].Type)).(*types.Named)
 			if !ok {
@@ -265,7 +354,7 @@ func c02leafExtra(t *tr) string {
 	}
 	sort.Strings(leafTypes)
 	q := func(s string) string { return strconv.Quote(s) }
-	var accRows, wrRows []string
+	var accRows, wrRows, ordRows []string
 	for _, ty := range leafTypes {
 		ms := byType[ty]
 		sort.Slice(ms, func(a, b int) bool { return ms[a].name < ms[b].name })
@@ -285,6 +374,13 @@ func c02leafExtra(t *tr) string {
 				}
 				accRows = append(accRows, fmt.Sprintf("(%s, %s, [%s])", q(ty), q(m.name), strings.Join(stmts, ", ")))
 			}
+			if m.name == "Next" || m.name == "Left" || m.name == "Start" {
+				var qs []string
+				for _, x := range c02leafOrder(p, c02leafDecls, m.fd, 0) {
+					qs = append(qs, q(x))
+				}
+				ordRows = append(ordRows, fmt.Sprintf("(%s, %s, [%s])", q(ty), q(m.name), strings.Join(qs, ", ")))
+			}
 			for _, w := range sc.plainWrites(m.fd.Body) {
 				wrRows = append(wrRows, fmt.Sprintf("(%s, %s, %s, %s)", q(ty), q(m.name), q(w[0]), w[1]))
 			}
@@ -294,6 +390,8 @@ func c02leafExtra(t *tr) string {
 	b.WriteString("/-- regenerated from `core/schedule`: for every schedule type whose `Next` and `Left` take no lock, the statements of\nthese methods that touch shared state, in source order, each with its accesses -/\n")
 	b.WriteString("def leafAccesses : List (String × String × List (List String)) :=\n  [" + strings.Join(accRows, ",\n   ") + "]\n\n")
 	b.WriteString("/-- … and every plain (non-atomic) write of a receiver field in any method of these types: (type, method, field,\ninside a function passed to `<sync.Once>.Do`) -/\n")
-	b.WriteString("def leafPlainWrites : List (String × String × String × Bool) :=\n  [" + strings.Join(wrRows, ",\n   ") + "]\n")
+	b.WriteString("def leafPlainWrites : List (String × String × String × Bool) :=\n  [" + strings.Join(wrRows, ",\n   ") + "]\n\n")
+	b.WriteString("/-- … and, per method Start / Next / Left of these types, its accesses to shared state in EXECUTION order (arguments before\nthe call, the function passed to a once entered in place, methods of the receiver — `MarkStarted()`, `IsStarted()`, extracted\nhelpers — replaced by their own accesses) -/\n")
+	b.WriteString("def leafOrder : List (String × String × List String) :=\n  [" + strings.Join(ordRows, ",\n   ") + "]\n")
 	return b.String()
 }
